@@ -362,8 +362,38 @@ pub fn replay_file(p: &dyn Prop, j: &Value) -> (bool, bool, String) {
     (reproduced, dig, msg)
 }
 
+/// Replay file for a run that kills the process executing it (found by the parent process).
+pub fn write_abort_replay(p: &dyn Prop, opts: &CheckOpts, index: u64, how: &str) -> String {
+    let (scn_seed, sched_seed) = seeds_for(opts.seed, p.id(), index);
+    let mut rng = Rng::new(scn_seed);
+    let scn = p.gen(&mut rng, opts.tier);
+    let dir = format!("{}/out/replays/{}", opts.verif_dir, p.id());
+    let _ = std::fs::create_dir_all(&dir);
+    let path = format!("{}/{}-{}-{}-{}_process_abort.json", dir, p.id(), opts.seed, index, p.id());
+    let j = json!({
+        "property": p.id(),
+        "engine": p.engine(),
+        "tier": opts.tier.name(),
+        "seed": opts.seed,
+        "run_index": index,
+        "rule": format!("{}.process_abort", p.id()),
+        "class": "",
+        "msg": format!("the process executing this run died: {}", how),
+        "scenario": scn,
+        "sched_seed": sched_seed,
+        "trace": [],
+        "digest": 0,
+    });
+    std::fs::write(&path, serde_json::to_string_pretty(&j).unwrap()).expect("write replay");
+    path
+}
+
 pub fn check(p: &dyn Prop, opts: &CheckOpts) -> i32 {
     let start = Instant::now();
+    // second pass after the process died: one thread, the index of the run about to start is
+    // left in a file
+    let index_file = std::env::var("TRSIM_INDEX_FILE").ok();
+    let opts = &CheckOpts { threads: if index_file.is_some() { 1 } else { opts.threads }, tier: opts.tier, seed: opts.seed, runs: opts.runs, verif_dir: opts.verif_dir.clone(), write_evidence: opts.write_evidence && index_file.is_none() };
     let total = opts.runs.unwrap_or_else(|| p.runs(opts.tier));
     let known = load_known(&format!("{}/known_findings.json", opts.verif_dir));
     let agg = Mutex::new(Agg::default());
@@ -389,6 +419,9 @@ pub fn check(p: &dyn Prop, opts: &CheckOpts) -> i32 {
                         let (scn_seed, sched_seed) = seeds_for(opts.seed, p.id(), i);
                         let mut rng = Rng::new(scn_seed);
                         let scn = p.gen(&mut rng, opts.tier);
+                        if let Some(f) = &index_file {
+                            let _ = std::fs::write(f, i.to_string());
+                        }
                         let out = run_one(p, &scn, sched_seed);
                         local.evaluations += 1;
                         local.steps += out.steps;
